@@ -123,12 +123,12 @@ def check_cfg(ctx, rep, f, cfg):
     counts = {}
     total_sites = 0
     pol0 = vg.Policy(f, "none")
-    # private classification helpers (return a bool / integer / field-less enum, build no TwoFloat) are read
-    # in the context of their callers, so that a case split moved into a helper still dominates the site
+    # private helpers that build no TwoFloat (classification functions returning a bool / integer / field-less enum, word
+    # helpers returning f64s) are read in the context of their callers, so that a test moved into a helper still dominates the site
     helpers = set()
     for b in f.live:
         if not b.reachable and b.kind != "Closure" and b.trait is None and not raw_sites(b) and b.ident() != "fn:no_overlap" \
-                and "TwoFloat" not in b.output and "f64" not in b.output and not pol0.has_loop_or_recursion(b):
+                and "TwoFloat" not in b.output and not pol0.has_loop_or_recursion(b):
             helpers.add(b.ident())
     rep.analysed["classification_helpers" + sfx] = sorted(helpers)
     # keys of every function some run-time body calls
